@@ -391,9 +391,16 @@ def b7(F, rep):
                         continue
                     n += 1
                     ub = U.operand(b, oth, at=bb)
-                    ok = ub != INF and ub <= (1 << 16)
+                    # the accumulator's own width counts as well: a 16-bit tally stepped by up to 16 overflows after 4096
+                    # operations (seed10-c10a narrowed `bypass_bits` to u16), a 32-bit one after 2^28
+                    try:
+                        cap = U.place_tymax(b, fld[0]) or INF
+                    except Exception:
+                        cap = INF
+                    room = INF if cap == INF else (cap + 1) // max(int(ub), 1) if ub != INF else 0
+                    ok = ub != INF and ub <= (1 << 16) and room >= (1 << 16)
                     rep.add("B7", "small-step-accumulation:%s#%d" % (short, k), ok, b.where(bb),
-                            "%s with a step of at most %s" % (flow.describe_rvalue(b, r, names=False)[:120], ub))
+                            "%s with a step of at most %s into a value that holds %s: %s operations before the check can fire (2^16 required)" % (flow.describe_rvalue(b, r, names=False)[:120], ub, cap, room))
                     k += 1
     rep.floor("B7", "accumulations-in-codec", n, 3)
 
